@@ -31,13 +31,13 @@ use swc::{
 use swc_common::{
     comments::Comments,
     errors::{ColorConfig, Handler},
-    FileName, FilePathMapping, SourceFile,
+    FileName, FilePathMapping, SourceFile, Span, DUMMY_SP,
 };
 use swc_ecma_ast::{EsVersion, Program, Stmt};
 
 use std::fmt;
 use swc_ecma_parser::{EsSyntax, Syntax};
-use swc_ecma_visit::VisitMutWith;
+use swc_ecma_visit::{VisitMut, VisitMutWith};
 
 const SOURCE_MAP_URL: &str = "# sourceMappingURL=";
 
@@ -397,11 +397,21 @@ pub fn generate_prefix_stmts(csi_methods: &CsiMethods) -> Vec<Stmt> {
         parse_js(&source_file, handler, &compiler)
     });
 
-    if let Ok(Program::Script(script)) = program_result {
+    if let Ok(Program::Script(mut script)) = program_result {
+        // the template was parsed as a file of its own: its positions mean nothing in the files it is spliced into
+        script.visit_mut_with(&mut SpanEraser {});
         return script.body;
     }
 
     Vec::new()
+}
+
+struct SpanEraser {}
+
+impl VisitMut for SpanEraser {
+    fn visit_mut_span(&mut self, span: &mut Span) {
+        *span = DUMMY_SP;
+    }
 }
 
 #[cfg(test)]
